@@ -412,11 +412,22 @@ def subready_model(ctx):
     os.makedirs(d, exist_ok=True)
     for f in ("SubReadyOps.tla", "SubReady.tla"):
         shutil.copy(os.path.join(SPEC, f), d)
+    # thorough: 150 more 4-resource graphs drawn with VERIF_SEED
+    import random
+    rng = random.Random(ctx.seed)
+    more4 = ""
+    if ctx.tier != "quick":
+        seen = set()
+        while len(seen) < 150:
+            g = tuple(frozenset(x for x in "abcd" if rng.random() < 0.4) for _ in range(4))
+            seen.add(g)
+        for g in sorted(seen, key=lambda g: [sorted(x) for x in g]):
+            more4 += ",\n            [" + ", ".join("%s |-> {%s}" % (n, ", ".join('"%s"' % x for x in sorted(k))) for n, k in zip("abcd", g)) + "]"
     with open(os.path.join(d, "MCSubReady.tla"), "w") as f:
         f.write('---- MODULE MCSubReady ----\nEXTENDS SubReady\nMCNodes3 == {"a", "b", "c"}\nMCAll3 == [MCNodes3 -> SUBSET MCNodes3]\n'
                 'MCNodes4 == {"a", "b", "c", "d"}\n'
                 'MCSome4 == {[a |-> {"b", "c"}, b |-> {"c", "a"}, c |-> {"d"}, d |-> {"b"}], [a |-> {"b", "c"}, b |-> {"d"}, c |-> {"d"}, d |-> {"a", "d"}],\n'
-                '            [a |-> {"b"}, b |-> {"c"}, c |-> {"d"}, d |-> {"a"}], [a |-> {"b", "c", "d"}, b |-> {"d"}, c |-> {"d"}, d |-> {}]}\n====\n')
+                '            [a |-> {"b"}, b |-> {"c"}, c |-> {"d"}, d |-> {"a"}], [a |-> {"b", "c", "d"}, b |-> {"d"}, c |-> {"d"}, d |-> {}]%s}\n====\n' % more4)
     def cfg(nodes, graphs, maxreq, fails, disp, live=True, unsend="FALSE", invs="FireOnce Complete Counted SentClosed"):
         with open(os.path.join(d, "MCSubReady.cfg"), "w") as f:
             f.write("SPECIFICATION Spec\nCONSTANTS\n Nodes <- %s\n Graphs <- %s\n MaxReq = %d\n Fails = %s\n WithDispose = %s\n WithUnsend = %s\n"
@@ -443,7 +454,7 @@ def subready_model(ctx):
     pu = tlc("MCSubReady.tla", d, [], timeout=900, workers=8)
     if "Invariant Complete is violated" not in pu.stdout:
         raise MachineryError("SubReady.tla with WithUnsend = TRUE should violate Complete (finding KF-U):\n" + pu.stdout[-1500:])
-    cov = dict(states=td, transitions=tg, samples=[{"model": "spec/SubReady.tla: every reference graph over 3 resources (512 graphs, incl. self references and cycles)%s, OnReady calls from client requests and from references added by events, loads completing in any order, failing loads; invariants FireOnce Complete Counted SentClosed, liveness AllFire; negative checks: disposing a root with parked callbacks violates Counted (KF-H); marking a sent subscription unsent while it goes on processing events violates Complete (KF-U)" % ("" if ctx.tier == "quick" else " and four 4-resource graphs")}],
+    cov = dict(states=td, transitions=tg, samples=[{"model": "spec/SubReady.tla: every reference graph over 3 resources (512 graphs, incl. self references and cycles)%s, OnReady calls from client requests and from references added by events, loads completing in any order, failing loads; invariants FireOnce Complete Counted SentClosed, liveness AllFire; negative checks: disposing a root with parked callbacks violates Counted (KF-H); marking a sent subscription unsent while it goes on processing events violates Complete (KF-U)" % ("" if ctx.tier == "quick" else " and 154 4-resource graphs (four fixed, 150 drawn with VERIF_SEED)")}],
                rule="exhaustive TLC on SubReady.tla; the code is bound to SubReadyOps by the rdy* / subRef / subSent notes replayed by SubReadyTrace.tla inside the observer on every gateway trace", exhaustive=False)
     return dict(coverage=cov, violations=[], level="model_checking", assumptions=[])
 
